@@ -1322,11 +1322,13 @@ def plot_clause(ctx, hook=None):
             cb = digest(A.c2)
             fig = plt.figure()
             ax = fig.add_subplot(111)
+            plot_raised = False
             try:
                 p.plot(A.c2, vec=rng.choice(['w', 'u', 'exx', 'Nxx']), gridx=4, gridy=5, ax=ax)
             except ValueError as e:                       # matplotlib refuses a constant field
                 if 'levels' not in str(e):
                     raise
+                plot_raised = True                        # a FAILED call: C20 says nothing about the attributes it leaves
             plt.close('all')
             after = tuple(np.array(p.__dict__[k]) for k in ('u', 'v', 'w'))
             u2 = tuple(np.array(x) for x in p.uvw(A.c, xs=A.xs, ys=A.ys))
@@ -1334,7 +1336,7 @@ def plot_clause(ctx, hook=None):
         if digest(A.c2) != cb:
             ctx.violation('Panel.plot modified the caller-supplied c', dict(kind='plot', definition=D))
             return
-        if not same_result(stored, after):
+        if not plot_raised and not same_result(stored, after):
             ctx.violation('Panel.plot did not restore the stored displacement field', dict(kind='plot', definition=D))
             return
         if not same_result(u1, u2):
